@@ -383,7 +383,7 @@ def format_label(label, **params):
     if len(label.coindex) > 0:
         index += DEFAULT_COINDEX_SEPARATOR + label.coindex
     gf = ""
-    if label.gf != DEFAULT_EDGE or edge_always:
+    if (label.gf != DEFAULT_EDGE and len(label.gf) > 0) or edge_always:
         gf = label.gf_separator + label.gf
     headmarker = "'" if label.headmarker else ""
     result = lab + gf + index + headmarker
